@@ -11,7 +11,7 @@ ASSUME = [
     'chemicals H2, O2, H2O, CH4, CO, CO2 of the bundled database; five balanced reactions and everything reaction arithmetic builds from them',
 ]
 ALGEBRA = ['add', 'sub', 'iadd', 'isub', 'mul', 'rmul', 'div', 'imul', 'idiv', 'neg', 'copy', 'backwards', 'set_X', 'item_set_X', 'set_set_X',
-           'item_imul', 'item_idiv', 'set_assign_X', 'reduce', 'reduce', 'to_wt', 'to_wt', 'to_mol', 'mkset', 'set_copy', 'set_copy']
+           'item_imul', 'item_idiv', 'set_assign_X', 'reduce', 'reduce', 'to_wt', 'to_wt', 'to_mol', 'mkset', 'set_copy', 'set_copy', 'tagged_probe', 'tagged_probe']
 APPLY = ['react', 'react_set']
 SHAPE = ['load', 'load', 'set_feed', 'mkset']
 
